@@ -202,6 +202,28 @@ pub fn check_commit_trace(rf: &RefOutput, out: &GrevmOutput, n_txs: usize) -> Re
     Ok(())
 }
 
+/// A run that exhausted its (fixed-work) step budget is a livelock - not merely inconclusive - when
+/// one transaction went through at least this many incarnations: with n <= 24 transactions every
+/// re-execution of transaction k is caused by a new incarnation of a predecessor, an erroring attempt
+/// retried at its commit boundary, or a duplicate claim, so counts of this size do not arise from any
+/// finite block; on the unchanged tree no quick campaign has produced a run with a count of 8 or more.
+pub const LIVELOCK_INCARNATIONS: usize = 1000;
+
+pub fn livelock(detail: &str, log: &[crate::dsched::LoggedEv]) -> Option<String> {
+    if !detail.starts_with("step budget exhausted") {
+        return None;
+    }
+    let mut max: std::collections::BTreeMap<usize, usize> = Default::default();
+    for l in log {
+        if let Ev::AttemptStart { txid, incarnation, .. } = &l.ev {
+            let e = max.entry(*txid).or_insert(0);
+            *e = (*e).max(*incarnation);
+        }
+    }
+    let (tx, inc) = max.iter().max_by_key(|(_, i)| **i).map(|(t, i)| (*t, *i))?;
+    (inc >= LIVELOCK_INCARNATIONS).then(|| format!("the step budget was exhausted while transaction {tx} went through {inc} incarnations (per-transaction maxima: {max:?}): the block is re-executed forever; {detail}"))
+}
+
 pub fn evaluate(sc: &Scenario, oracle: &Oracle, precompiles: Precompiles, engine: Option<&mut dyn RefEngine>) -> (CaseReport, Artifacts) {
     let m = materialise(sc);
     let txs = materialise_txs(sc, &m);
@@ -230,6 +252,12 @@ pub fn evaluate(sc: &Scenario, oracle: &Oracle, precompiles: Precompiles, engine
     // --- verdicts
     match &out.verdict {
         Verdict::Inconclusive { detail } => {
+            if let Some(d) = livelock(detail, &out.log) {
+                if oracle.termination || oracle.result_equal {
+                    rep.failure = fail("termination/livelock", d);
+                    return (rep, Artifacts { rf, out });
+                }
+            }
             rep.inconclusive = Some(detail.clone());
             return (rep, Artifacts { rf, out });
         }
@@ -348,6 +376,10 @@ pub fn class_histogram(h: &mut BTreeMap<String, u64>, r: &CaseReport) {
     histogram_add(h, "runs_with_reference_skips", (r.ref_skipped > 0) as u64);
     histogram_add(h, "runs_with_reference_fatal", r.ref_error as u64);
     histogram_add(h, "runs_with_injected_panic_reaching_caller", r.classes.iter().any(|c| c == "injected_panic_reached_caller") as u64);
+    histogram_add(h, "runs_with_max_incarnation_ge_8", (c.max_incarnation >= 8) as u64);
+    histogram_add(h, "runs_with_max_incarnation_ge_16", (c.max_incarnation >= 16) as u64);
+    histogram_add(h, "runs_with_max_incarnation_ge_32", (c.max_incarnation >= 32) as u64);
+    histogram_add(h, "runs_with_max_incarnation_ge_64", (c.max_incarnation >= 64) as u64);
     histogram_add(h, "total_attempts", c.attempts);
     histogram_add(h, "total_steps", r.steps);
 }
